@@ -12,7 +12,7 @@ import rxsci.container.json as rsjson
 import rxsci.framing.line as line
 
 from rxsim.runner import Check, Outcome
-from rxsim.bytesim import gen_cuts, cut, drive, collect, SimDisk, dump_then_load_on_completion
+from rxsim.bytesim import gen_cuts, cut, drive, collect, SimDisk, dump_then_load_on_completion, dump_concurrently, merge_order
 
 STRS = ['', 'a', 'line\nbreak', 'quote"inside', 'back\\slash', 'tab\there', 'é€', '\U0001F600\U00010348', '\r\n', '{"k": 1}', ' ', 'x' * 40,
         ' ', '\x00\x1f']
@@ -91,7 +91,7 @@ class C19(Check):
             'rxsci.framing.line (current working tree)', 'orjson, zlib, zstandard, codecs', 'RxPY core']
     stubs = ['simulated disk / file objects (open_obj seam, short reads)', 'final subscriber']
     assumptions = ['items are dicts (a top-level null is dropped by design); strings contain no lone surrogates; ints fit 64 bits']
-    probe_names = ('read_back_inside_completion', 'encoding:utf-16', 'encoding:latin-1', 'object>64KiB', 'compression:None', 'compression:gzip', 'compression:zstd', 'short_reads', 'one_byte_reads', 'file>64KiB', 'multibyte_chars',
+    probe_names = ('two_files_written_concurrently', 'read_back_inside_completion', 'encoding:utf-16', 'encoding:latin-1', 'object>64KiB', 'compression:None', 'compression:gzip', 'compression:zstd', 'short_reads', 'one_byte_reads', 'file>64KiB', 'multibyte_chars',
                    'newline_in_string', 'empty_file', 'path:mem')
     quick_cap = 100000
 
@@ -112,6 +112,9 @@ class C19(Check):
         case = {'items': items, 'compression': rng.choice([None, 'gzip', 'zstd']), 'path': 'file' if rng.random() < 0.8 else 'mem',
                 'cutseed': rng.randrange(1 << 30)}
         case['ack'] = rng.random() < 0.4
+        if case['path'] == 'file' and not case['ack'] and rng.random() < 0.25:
+            # a second file written at the same time (one source split into two files): items interleaved by the seeded order
+            case['twin'] = True
         # the optional encoding argument, given to both dump_to_file and load_from_file
         case['encoding'] = rng.choice(['utf-8', 'utf-8', 'utf-8', 'utf-8', 'utf-16', 'utf-32', 'latin-1'])
         if case['encoding'] == 'latin-1':
@@ -176,6 +179,22 @@ class C19(Check):
                 p['read_back_inside_completion'] += 1
                 if t is not None and t[0] == 'completed' and still_open:
                     out.add('file-open-at-completion', 'json', {'open_files': still_open, 'compression': comp})
+                    return out
+            elif case.get('twin'):
+                p['two_files_written_concurrently'] += 1
+                items2 = [{'twin': n, 'of': it.get('id')} for n, it in enumerate(reversed(items))] + [{'twin': 'tail'}]
+                order = merge_order(random.Random(case['cutseed']), [len(items), len(items2)])
+                t, t2 = dump_concurrently([items, items2],
+                                          [rsjson.dump_to_file('sim.json', compression=comp, encoding=enc, open_obj=disk.open),
+                                           rsjson.dump_to_file('sim2.json', compression=comp, encoding=enc, open_obj=disk.open)], order)
+                got, term = (None, None)
+                if t2 is None or t2[0] != 'completed':
+                    out.add('dump_to_file-failed', 'json', {'terminal': repr(t2), 'compression': comp, 'file': 'second of two'})
+                    return out
+                got2, term2 = collect(rsjson.load_from_file('sim2.json', compression=comp, encoding=enc, open_obj=disk.open))
+                if term2 is None or term2[0] != 'completed' or len(got2) != len(items2) or not all(deep_eq(g, e) for g, e in zip(got2, items2)):
+                    out.add('concurrent-file', 'json', {'terminal': repr(term2), 'compression': comp, 'expected': repr(items2)[:300],
+                                                        'got': repr(got2)[:300]})
                     return out
             else:
                 _, t = collect(rx.from_(items).pipe(rsjson.dump_to_file('sim.json', compression=comp, encoding=enc, open_obj=disk.open)))
